@@ -71,6 +71,7 @@ type faultSpec struct {
 type opSpec struct {
 	Op      string          `json:"op"`
 	Seconds int64           `json:"seconds"`
+	Millis  int64           `json:"millis"` // sleep: a fraction of a second on top of Seconds
 	Ctrl    string          `json:"ctrl"`
 	Ns      string          `json:"ns"`
 	Name    string          `json:"name"`
@@ -832,7 +833,7 @@ func (w *world) runOp(op opSpec) (so stepOut) {
 	so.Now = time.Now().UnixNano()
 	switch op.Op {
 	case "sleep":
-		time.Sleep(time.Duration(op.Seconds) * time.Second)
+		time.Sleep(time.Duration(op.Seconds)*time.Second + time.Duration(op.Millis)*time.Millisecond)
 	case "restart":
 		w.freshControllers()
 	case "concurrent":
